@@ -32,6 +32,8 @@ CLAIMS = {
          "Reads of every snapshot transaction must be explained by one instant of the linearised commit order. Recorded defects: Begin between the publishing draws of a commit, Begin unregistered while the collector fixes its horizon (known findings, recognised by their schedules).", "6 C08"),
  "C09": ("TLC action property GCInvisible + ReadableHasContent on FsDb.tla, replay of behaviours with the collector at every position; blame by ablation of the GC steps",
          "The collector is enabled at every state of the bounded model; in the real code all reads of all open transactions are compared before/after and for the rest of the behaviour, and a disagreement that disappears when the GC steps are left out is attributed to the collector.", "6 C09"),
+ "C10": ("TLC invariants on SetRetry.tla (no-space continuation over roots: success is exact, continues where there is room) and Upload.tla (an aborted upload leaves no trace, nobody sees a prefix) + every emitted fault scenario executed on the real code (write-fault and free-space hooks; failing reader, cancelled context, cut connection through a proxy)",
+         "Every combination of free-space ranks, fault position (each file write call) and kind (nothing written / half a chunk written) on 2-3 roots, and every position of reader error / cancellation / connection cut in uploads of several lengths, through inline Set/SetReader/Create and the gRPC client; afterwards an independent client reads the key.", "6 C10"),
  "C11": ("the L1 behaviours emitted by TLC are replayed through external.Open against the real gRPC server and through the inline client; a disagreement only the external run shows is a C11 violation",
          "All behaviours of the C01/C02/C03/C13 families up to the stated depth are executed through both clients (contents across the 2048-byte chunk boundary, all four levels, late operations, server restarts) and compared step by step with the L0 promise by errors.Is classes and byte equality.", "6 C11"),
  "C12": ("TLC on AsyncRW.tla (one action per segment between two gates of read_writer.go; safety Concatenation, no stuck state, liveness CloseReturns) + every emitted schedule replayed step by step on the real readWriter + inline Create end to end under controlled schedules",
